@@ -259,7 +259,8 @@ def _short(b: bytes, n: int = 400) -> str:
 
 def _core(doc: tuple, fails, need_nonascii: bool = False) -> tuple:
     """Deterministic greedy reduction keeping `fails(candidate)` true: delete tokens, then replace each
-    token by the first token of its class (so `</head >` / `MARK_A'` variants of one core collapse)."""
+    token by the first token of its class (so `</head >` / `MARK_A'` variants of one core collapse).
+    Returns (core after deletion only, canonical core)."""
     cls = _STATE["cls"]
     ok = (lambda c: bool(_STATE["nonascii"].intersection(c))) if need_nonascii else (lambda c: True)
     cur = list(doc)
@@ -272,6 +273,7 @@ def _core(doc: tuple, fails, need_nonascii: bool = False) -> tuple:
                 cur = list(cand)
                 again = True
                 break
+    deleted = tuple(cur)
     for j in range(len(cur)):
         for t in range(cur[j]):
             if cls[t] == cls[cur[j]]:
@@ -279,7 +281,7 @@ def _core(doc: tuple, fails, need_nonascii: bool = False) -> tuple:
                 if ok(cand) and fails(cand):
                     cur = list(cand)
                     break
-    return tuple(cur)
+    return deleted, tuple(cur)
 
 
 def _is_subseq(core: tuple, doc: tuple) -> bool:
@@ -326,8 +328,8 @@ def _worker(w, W, payload):
                             k = "str"
                         if any(_is_subseq(c, doc) for c in known_cores.get((k, rtype, clause), ())):
                             continue  # contains an already reported core of the same clause
-                        core = _core(doc, lambda c: check_one(c, k, rtype)[0] == clause, need_nonascii=(k == "latin1"))
-                        known_cores.setdefault((k, rtype, clause), []).append(core)
+                        dcore, core = _core(doc, lambda c: check_one(c, k, rtype)[0] == clause, need_nonascii=(k == "latin1"))
+                        known_cores.setdefault((k, rtype, clause), []).append(dcore)
                         ident = f"rd:{rtype}:{clause}:{' '.join(names[t] for t in core)}"
                         if k != "str":
                             ident += f" [{k} input]"
@@ -429,8 +431,8 @@ def _mw_worker(w, W, payload):
                     agg.observe((obs, touched))
                     if clause is not None:
                         agg.extra["failing_cases"] += 1
-                        core = _core(doc, lambda c: _mw_case(c, ctype, is_html, enc, streaming, is_async)[0] == clause,
-                                     need_nonascii=(enc == "latin1"))
+                        _, core = _core(doc, lambda c: _mw_case(c, ctype, is_html, enc, streaming, is_async)[0] == clause,
+                                        need_nonascii=(enc == "latin1"))
                         ident = f"mw:{clause}:{' '.join(names[t] for t in core)}"
                         if enc == "latin1" and _STATE["nonascii"].intersection(core):
                             ident += " [latin-1 body]"
